@@ -246,6 +246,8 @@ inline HttpMsg parse_http(const std::string& data, size_t off, bool isResponse, 
         for (unsigned char c : m.method) if (!is_tchar(c)) { m.error = "method is not a token"; return m; }
         if (m.version != "HTTP/1.1" && m.version != "HTTP/1.0") { m.error = "bad HTTP version in request line"; return m; }
         if (m.target.empty() || m.target.find(' ') != std::string::npos) { m.error = "bad request target"; return m; }
+        // RFC 7230 5.3: origin-form starts with '/', absolute-form has a scheme, authority-form is for CONNECT, '*' for OPTIONS
+        if (!(m.target[0] == '/' || m.target == "*" || m.target.find("://") != std::string::npos || m.method == "CONNECT")) { m.error = "request target is not in origin-form"; return m; }
     }
     size_t q = p + 2;
     for (;;) {
